@@ -4840,8 +4840,15 @@ def type_script_repr(type_,imports,prefix,settings):
         imports.append('import %s'%module)
     return module+'.'+type_.__name__
 
+def float_script_repr(val,imports,prefix,settings):
+    # repr() of a non-finite float ('inf', '-inf', 'nan') is not a Python expression
+    if val != val or val in (float('inf'), float('-inf')):
+        return "float('%r')" % val
+    return repr(val)
+
 script_repr_reg[list] = container_script_repr
 script_repr_reg[tuple] = container_script_repr
+script_repr_reg[float] = float_script_repr
 script_repr_reg[FunctionType] = function_script_repr
 
 
